@@ -94,8 +94,11 @@ class CfgPrinter:
         L.append("%d %s" % (len(self.I.prim_info), " ".join(self.prim(p) for p in self.I.prim_info)))
         L.append("%d %s" % (len(self.I.test_info), " ".join(self.test(t) for t in self.I.test_info)))
         dfl = []
+        ondemand = "-fallocate-str-space-dynamic-on-demand" in self.flags
         for i, o in enumerate(self.outs):
             if o["default"] is None:
+                if o["type"] == "STR" and o["null"] and not ondemand:
+                    dfl.append("DL %d" % i)          # start() terminates the empty string (in-struct and heap; on-demand has no buffer yet)
                 continue
             if o["type"] in ("STR", "RAW"):
                 dfl.append("SS %d %d %s" % (i, len(o["default"]), " ".join(map(str, o["default"]))))
@@ -210,7 +213,7 @@ def driver_source(name, m, flags):
     feed_call = "%s_feed(&cur, end, &st)" % P if indirect else "%s_feed(cur, end, &st)" % P
     L.append("int main(void) { char cmd[16]; memset(&st, 0, sizeof st); int started = 0; static unsigned char buf[1 << 16];")
     L.append("  while (scanf(\"%15s\", cmd) == 1) {")
-    L.append("    if (!strcmp(cmd, \"init\")) { if (!started) { %s_start(&st); set_hooks(); started = 1; hooklen = 0; hooklog[0] = 0; } do_init(); save_ctx(); }" % P)
+    L.append("    if (!strcmp(cmd, \"init\")) { if (!started) { set_hooks(); %s_start(&st); started = 1; hooklen = 0; hooklog[0] = 0; } do_init(); save_ctx(); }" % P)
     L.append("    else if (!strcmp(cmd, \"step\")) { long q, s; if (scanf(\"%ld %ld\", &q, &s) != 2) exit(3); restore_ctx(); st.state = q; hooklen = 0; hooklog[0] = 0;")
     L.append("      if (s == 256) { %s }" % (("int c = %s_end(&st); report(c, 0);" % P) if eof else 'printf("NOEND\\n");'))
     L.append("      else { unsigned char b = (unsigned char)s; const uint8_t *cur = &b; const uint8_t *end = &b + 1; int c = %s; report(c, %s); } }" % (feed_call, "(long)(cur - &b)" if indirect else "-1"))
@@ -219,7 +222,7 @@ def driver_source(name, m, flags):
     L.append("    else if (!strcmp(cmd, \"run\")) { long nch; if (scanf(\"%ld\", &nch) != 1) exit(3); long lens[256]; long tot = 0; for (long i = 0; i < nch; i++) { if (scanf(\"%ld\", &lens[i]) != 1) exit(3); tot += lens[i]; }")
     L.append("      for (long i = 0; i < tot; i++) { long c; if (scanf(\"%ld\", &c) != 1) exit(3); buf[i] = (unsigned char)c; } long endflag; if (scanf(\"%ld\", &endflag) != 1) exit(3);")
     L.append("      /* every run starts from the init data: the driver keeps a pristine copy */")
-    L.append("      memset(&st, 0, sizeof st); hooklen = 0; hooklog[0] = 0; int c = %s_start(&st); set_hooks(); report(c, 0); int keep = (endflag & 2) != 0; int stop = (c != %s_OK) && !keep;" % (P, U))
+    L.append("      memset(&st, 0, sizeof st); set_hooks(); hooklen = 0; hooklog[0] = 0; int c = %s_start(&st); report(c, 0); int keep = (endflag & 2) != 0; int stop = (c != %s_OK) && !keep;" % (P, U))
     L.append("      long off = 0; for (long i = 0; i < nch && !stop; i++) { const uint8_t *base = buf + off; const uint8_t *cur = base; const uint8_t *end = base + lens[i]; off += lens[i];")
     L.append("        for (;;) { const uint8_t *before = cur; c = %s; report(c, %s);" % (feed_call, "(long)(cur - before)" if indirect else "-1"))
     L.append("          if (is_yield(c)) { %s continue; } if (c != %s_OK && !keep) stop = 1; break; } }" % ("if (cur == end && !%d) break;" % (1 if m["end_check"] else 0), U))
@@ -337,6 +340,24 @@ def random_input(m, rng, maxlen=24, special=()):
             break
         # prefer non-error transitions
         good = [t for t in trs if not t["err"]] or trs
+        if st["kind"] == "normal" and rng.random() < 0.12:
+            # a byte right next to the end of a run of byte values of some transition (off-by-one in range tests)
+            cand = set()
+            for t2 in trs:
+                bs2 = sorted(b for b in t2["on"] if b < 256)
+                for i, b in enumerate(bs2):
+                    if i == 0 or bs2[i - 1] != b - 1:
+                        cand.add(b - 1)
+                    if i == len(bs2) - 1 or bs2[i + 1] != b + 1:
+                        cand.add(b + 1)
+            cand = [b for b in cand if 0 <= b < 256]
+            if cand:
+                b = rng.choice(cand)
+                tsel = [t2 for t2 in trs if b in t2["on"]] or [t2 for t2 in trs if 257 in t2["on"]]
+                if tsel:
+                    out.append(b)
+                    q = tsel[0]["tgt"]
+                    continue
         t = rng.choice(good if rng.random() < 0.85 else trs)
         if st["kind"] == "normal" and not t["fall"]:
             bs = [b for b in t["on"] if b < 256]
@@ -407,10 +428,10 @@ def contexts(cp, rng, n_random=2):
 # ---------------------------------------------------------------------------
 # one-stop preparation of a program x option set
 # ---------------------------------------------------------------------------
-def prepare_compile(src, flags, max_states=None):
+def prepare_compile(src, flags, max_states=None, interner=None):
     """(main thread: the compile helper uses SIGALRM) compile with the real compiler, export, print cfg"""
     import nm
-    I = export.Interner()
+    I = interner or export.Interner()
     r = nm.compile_source(src, flags, want_c=True, name="prog", interner=I)
     out = {"ok": False, "verdict": r["verdict"], "why": r["message"], "flags": flags, "src": src}
     if r["verdict"] != "ok":
